@@ -94,6 +94,14 @@ static inline size_t call_bundle(char *buf, size_t len, uint64_t tt, const std::
     case 7: return rtosc_bundle(buf, len, tt, 7, e[0], e[1], e[2], e[3], e[4], e[5], e[6]);
     case 8: return rtosc_bundle(buf, len, tt, 8, e[0], e[1], e[2], e[3], e[4], e[5], e[6], e[7]);
     }
+    // 9..40 elements: the callee reads exactly `elms` pointers; the unused trailing variadic arguments are null
+    if(e.size() <= 40) {
+        const char *a[40] = {nullptr};
+        for(size_t i = 0; i < e.size(); ++i) a[i] = e[i];
+#define VP8(k) a[k], a[k + 1], a[k + 2], a[k + 3], a[k + 4], a[k + 5], a[k + 6], a[k + 7]
+        return rtosc_bundle(buf, len, tt, (int)e.size(), VP8(0), VP8(8), VP8(16), VP8(24), VP8(32));
+#undef VP8
+    }
     abort();
 }
 
